@@ -15,3 +15,53 @@ theorem transport_sizes : Gen.c_dataMaxSize = (Transport.dataMaxSize : Int) ∧
     Gen.c_totalFrameSize = 1026 := by decide
 
 end AnnVerif.Ties
+
+namespace AnnVerif.Ties
+open AnnVerif
+
+/-- `nextMsgPacket`: the code's "last packet" test and the length it cuts off are `packetize`'s -/
+theorem packetize_is_nextMsgPacket (ch fuel : Nat) (m : Bytes) :
+    Transport.packetize ch (fuel + 1) m =
+      if Gen.e_packet_isLast m.length then [⟨ch, true, m.take (Gen.e_packet_take m.length).toNat⟩]
+      else ⟨ch, false, m.take (Gen.e_packet_take m.length).toNat⟩ ::
+        Transport.packetize ch fuel (m.drop (Gen.e_packet_take m.length).toNat) := by
+  rw [Transport.packetize]
+  unfold Gen.e_packet_isLast Gen.e_packet_take Gen.c_maxMsgPacketPayloadSize Transport.maxPayload
+  by_cases h : m.length ≤ 1024
+  · have e : (min (1024 : Int) (m.length : Int)).toNat = m.length := by omega
+    have h' : (m.length : Int) ≤ 1024 := by omega
+    simp [h, h', e]
+  · have e : (min (1024 : Int) (m.length : Int)).toNat = 1024 := by omega
+    have h' : ¬ (m.length : Int) ≤ 1024 := by omega
+    simp [h, h', e]
+
+/-- `recvMsgPacket`: capacity test and end-of-message flag -/
+theorem recvPacket_is_recvMsgPacket (capacity : Nat) (recving : Bytes) (p : Transport.Packet) :
+    Transport.recvPacket capacity recving p =
+      if Gen.e_packet_tooLong capacity recving.length p.bytes.length then (recving, .tooLong)
+      else if Gen.e_packet_eof (if p.eof then 1 else 0) then ([], .complete (recving ++ p.bytes))
+      else (recving ++ p.bytes, .more) := by
+  unfold Transport.recvPacket Gen.e_packet_tooLong Gen.e_packet_eof
+  by_cases h : capacity < recving.length + p.bytes.length
+  · have h' : (capacity : Int) < (recving.length : Int) + (p.bytes.length : Int) := by omega
+    simp [h, h']
+  · have h' : ¬ (capacity : Int) < (recving.length : Int) + (p.bytes.length : Int) := by omega
+    cases he : p.eof <;> simp [h, h', he]
+
+/-- `SecretConnection.Write`: a chunk is the whole rest unless more than `dataMaxSize` bytes remain -/
+theorem chunks_is_write (fuel : Nat) (d : Bytes) (hd : d ≠ []) :
+    Transport.chunks (fuel + 1) d =
+      if Gen.e_frame_split d.length then d.take Transport.dataMaxSize :: Transport.chunks fuel (d.drop Transport.dataMaxSize)
+      else d :: Transport.chunks fuel [] := by
+  rw [Transport.chunks]
+  unfold Gen.e_frame_split Gen.c_dataMaxSize Transport.dataMaxSize
+  have hne : d.isEmpty = false := by cases d <;> simp_all
+  by_cases h : 1024 < d.length
+  · have h' : (1024 : Int) < (d.length : Int) := by omega
+    simp [hne, h']
+  · have h' : ¬ (1024 : Int) < (d.length : Int) := by omega
+    have e1 : d.take 1024 = d := List.take_of_length_le (by omega)
+    have e2 : d.drop 1024 = [] := List.drop_of_length_le (by omega)
+    simp [hne, h', e1, e2]
+
+end AnnVerif.Ties
